@@ -14,6 +14,7 @@ import (
 	"fmt"
 	"os"
 	"runtime"
+	"sort"
 	"strings"
 	"sync"
 	"sync/atomic"
@@ -59,9 +60,46 @@ func harnessFail(format string, a ...any) {
 	os.Exit(3)
 }
 
+// parkedProgramGoroutines inspects the goroutines running the program's operations (frames of runStress.func1): the
+// states and top frames of those that have not finished, and whether all of them are parked on a synchronisation
+// primitive (channel, semaphore / WaitGroup / Mutex / Cond).
+func parkedProgramGoroutines() (desc string, allParked bool) {
+	buf := make([]byte, 1<<20)
+	buf = buf[:runtime.Stack(buf, true)]
+	allParked = true
+	var out []string
+	for _, g := range strings.Split(string(buf), "\n\n") {
+		if !strings.Contains(g, "lazyprops.runStress.func1(") {
+			continue
+		}
+		head := g[:strings.Index(g+"\n", "\n")]
+		state := head[strings.Index(head, "[")+1:]
+		parked := false
+		for _, w := range []string{"chan receive", "chan send", "semacquire", "sync.WaitGroup.Wait", "sync.Mutex.Lock", "sync.RWMutex", "sync.Cond.Wait", "select"} {
+			if strings.HasPrefix(state, w) {
+				parked = true
+			}
+		}
+		if !parked {
+			allParked = false
+		}
+		lines := strings.Split(g, "\n")
+		top := ""
+		for _, l := range lines[1:] {
+			if strings.Contains(l, "lazymap") {
+				top = strings.TrimSpace(l)
+				break
+			}
+		}
+		out = append(out, "   ["+strings.TrimSuffix(strings.SplitN(state, ",", 2)[0], "]:")+"] "+top)
+	}
+	sort.Strings(out)
+	return strings.Join(out, "\n"), allParked && len(out) > 0
+}
+
 // runStress executes the program once with real goroutines and returns the history (with final
 // loads) and per-key compute counts.
-func runStress(c *stressCase) (h []lazymodel.Op, computes [nKeys]int64, invokedTwice string) {
+func runStress(c *stressCase) (h []lazymodel.Op, computes [nKeys]int64, invokedTwice string, deadlocked string) {
 	var m lazymap.LazySyncMap
 	var clock atomic.Int64
 	per := make([][]lazymodel.Op, len(c.Program))
@@ -111,13 +149,33 @@ func runStress(c *stressCase) (h []lazymodel.Op, computes [nKeys]int64, invokedT
 	fin := make(chan struct{})
 	go func() { done.Wait(); close(fin) }()
 	start.Done()
-	select {
-	case <-fin:
-	case <-time.After(60 * time.Second):
-		// a real deadlock cannot be told from a slow machine by the clock: inconclusive, not a verdict (the
-		// schedule-controlled runs decide deadlocks)
-		buf := make([]byte, 1<<18)
-		harnessFail("goroutines did not finish within 60s for %s\n%s", c.programText(), buf[:runtime.Stack(buf, true)])
+	// A deadlock cannot be told from a slow machine by the clock alone. It can be told from the goroutine states:
+	// the code under test waits on nothing but other callers of the map (no I/O, no timers), so when every unfinished
+	// program goroutine is parked on a synchronisation primitive, and still is a while later with nothing else of the
+	// program runnable, nobody is left to wake them.
+	deadline := time.After(60 * time.Second)
+	tick := time.NewTicker(3 * time.Second)
+	defer tick.Stop()
+	prev := ""
+wait:
+	for {
+		select {
+		case <-fin:
+			break wait
+		case <-tick.C:
+			blocked, all := parkedProgramGoroutines()
+			if all && blocked != "" && blocked == prev {
+				deadlocked = fmt.Sprintf("callers never return: every unfinished goroutine of the program is parked on a synchronisation primitive and nothing is left to wake it\n%s", blocked)
+				return
+			}
+			prev = blocked
+			if !all {
+				prev = ""
+			}
+		case <-deadline:
+			buf := make([]byte, 1<<18)
+			harnessFail("goroutines did not finish within 60s for %s\n%s", c.programText(), buf[:runtime.Stack(buf, true)])
+		}
 	}
 	for g := range per {
 		for oi := range per[g] {
@@ -157,7 +215,10 @@ func overlapOnKey(h []lazymodel.Op) bool {
 func checkStress(rec *stats.Recorder, c *stressCase) string {
 	old := runtime.GOMAXPROCS(c.Procs)
 	defer runtime.GOMAXPROCS(old)
-	h, computes, twice := runStress(c)
+	h, computes, twice, deadlocked := runStress(c)
+	if deadlocked != "" {
+		return deadlocked + "\n program: " + c.programText()
+	}
 	c.History = historyLines(h)
 	overlap := overlapOnKey(h)
 	labels := []string{fmt.Sprintf("stress:gomaxprocs=%d", c.Procs), fmt.Sprintf("stress:goroutines=%d", len(c.Program))}
